@@ -2,7 +2,7 @@
    Only statements; every proof is `exact <lemma>`; examples by computation. *)
 From Coq Require Import List ZArith QArith Qcanon Bool Arith.
 From Dimod Require Import Base.Util Model.Poly Model.HPoly Model.Reduce
-  Proofs.ReduceFacts Proofs.PenaltyFacts Proofs.MakeQuadratic Proofs.NormaliseFacts Proofs.C15EndToEnd Proofs.ReduceLoop Proofs.BaseFacts.
+  Proofs.ReduceFacts Proofs.PenaltyFacts Proofs.MakeQuadratic Proofs.NormaliseFacts Proofs.C15EndToEnd Proofs.ReduceLoop Proofs.BaseFacts Model.Gates Gen.Gen_Gates Gen.Gen_SpinProduct Proofs.GenPenalties.
 Import ListNotations.
 Open Scope Qc_scope.
 
@@ -78,6 +78,22 @@ Theorem C15_spin_pen_poly_energy :
   forall u v p w (a : sample), energy (spin_pen_poly u v p w) a = spin_pen (a u) (a v) (a p) (a w).
 Proof. exact energy_spin_pen_poly. Qed.
 Print Assumptions C15_spin_pen_poly_energy.
+
+(* ... and they are the tables TRANSLATED from the source on every run (translators/spin_product.py,
+   translators/gates_tables.py): a changed constant in _spin_product or and_gate breaks these *)
+Theorem C15_spin_pen_poly_is_source :
+  forall u v p w,
+    spin_pen_poly u v p w = table_poly [u; v; p; w] spin_product_offset spin_product_lin spin_product_quad.
+Proof. exact spin_pen_poly_is_source. Qed.
+Print Assumptions C15_spin_pen_poly_is_source.
+
+Theorem C15_and_pen_poly_is_source :
+  forall u v p,
+    and_pen_poly u v p
+    = table_poly [u; v; p] 0 (map (fun t => (fst t, z2q (snd t))) and_gate_lin)
+                             (map (fun t => (fst t, z2q (snd t))) and_gate_quad).
+Proof. exact and_pen_poly_is_source. Qed.
+Print Assumptions C15_and_pen_poly_is_source.
 
 (* make_quadratic = strength * penalties + reduced objective *)
 Theorem C15_make_quadratic_binary_energy :
